@@ -113,8 +113,13 @@ Theorem model_satisfies_spec :
   (forall i, spec_compact i (model_compact i) = true) /\
   (forall i n, spec_crash i (model_crash i n) = true) /\
   (forall i, spec_fail i (model_fail i) = true) /\
-  (forall i, spec_snapshot i (model_snapshot i) = true).
-Proof. exact (conj link_compact (conj link_crash (conj link_fail link_snapshot))). Qed.
+  (forall i, spec_snapshot i (model_snapshot i) = true) /\
+  (* a whole-series delete landing while the compaction runs: both possible outcomes *)
+  (forall i k, spec_delete i k (model_delete_fail i k) = true) /\
+  (forall i k, spec_delete i k (model_delete_ok i k) = true).
+Proof.
+  exact (conj link_compact (conj link_crash (conj link_fail (conj link_snapshot (conj link_delete_fail link_delete_ok))))).
+Qed.
 Print Assumptions model_satisfies_spec.
 
 (* ---------- non-vacuity ---------- *)
